@@ -10,6 +10,8 @@ type builder struct {
 	doc             *XMLDoc
 	dict            *DataDictionary
 	componentByName map[string]*XMLComponent
+	// components whose definition is being expanded right now (a component must not contain itself)
+	expanding map[string]bool
 }
 
 func (b *builder) build(doc *XMLDoc) (*DataDictionary, error) {
@@ -30,6 +32,7 @@ func (b *builder) build(doc *XMLDoc) (*DataDictionary, error) {
 	}
 
 	b.componentByName = make(map[string]*XMLComponent)
+	b.expanding = make(map[string]bool)
 	for _, c := range doc.Components {
 		b.componentByName[c.Name] = c
 	}
@@ -84,6 +87,12 @@ func (b builder) findOrBuildComponentType(xmlMember *XMLComponentMember) (*Compo
 }
 
 func (b builder) buildComponentType(xmlComponent *XMLComponent) (*ComponentType, error) {
+	if b.expanding[xmlComponent.Name] {
+		return nil, fmt.Errorf("component %v contains itself", xmlComponent.Name)
+	}
+	b.expanding[xmlComponent.Name] = true
+	defer delete(b.expanding, xmlComponent.Name)
+
 	var parts []MessagePart
 
 	for _, member := range xmlComponent.Members {
